@@ -8,7 +8,7 @@ from pandapipes.component_models.abstract_models.branch_wo_internals_models impo
 from pandapipes.component_models.component_toolbox import set_fixed_node_entries, standard_branch_wo_internals_result_lookup
 from pandapipes.idx_branch import D, AREA, LOAD_VEC_BRANCHES_T, TO_NODE, TOUTINIT, JAC_DERIV_DT, JAC_DERIV_DTOUT, MDOTINIT
 from pandapipes.idx_node import MDOTSLACKINIT, VAR_MASS_SLACK, JAC_DERIV_MSL, NODE_TYPE_T, GE, TINIT
-from pandapipes.pf.pipeflow_setup import get_fluid, get_lookup
+from pandapipes.pf.pipeflow_setup import get_fluid, get_lookup, PipeflowNotConverged
 from pandapipes.pf.internals_toolbox import get_from_nodes_corrected
 from pandapipes.pf.result_extraction import extract_branch_results_without_internals
 
@@ -181,7 +181,7 @@ class CirculationPump(BranchWOInternalsComponent):
 
         mask = (branch_pit[f:t, MDOTINIT] < 0) & ~np.isclose(branch_pit[f:t, MDOTINIT], 0)
         if np.any(mask):
-            raise UserWarning(r'Your grid is badly modelled and would lead to a direction change in circulation pump %s'
+            raise PipeflowNotConverged(r'Your grid is badly modelled and would lead to a direction change in circulation pump %s'
                               % str(net[cls.table_name()].index[mask].tolist()))
 
         required_results_hyd, required_results_ht = standard_branch_wo_internals_result_lookup(net)
